@@ -49,7 +49,7 @@ pub fn main(args: &[String]) -> i32 {
             s.copy_from_slice(&seed);
             let (sk, _pk) = api::keygen(n, s);
             for _ in 0..count {
-                println!("{}", hex(&api::sign(&msg, &sk).to_bytes()));
+                println!("{}", hex(&api::sign_unbounded(&msg, &sk).to_bytes()));
             }
             0
         }
